@@ -105,6 +105,13 @@ def build(tier, rnd):
         for ac in ACCESS:
             cases.append(("proto:" + sn, "%s; %s" % (sh, ac), False))
             cases.append(("proto:" + sn, "%s; do %s catch all 0 end" % (sh, ac), False))
+    # element assignment whose right-hand side shrinks, grows or replaces the very container it assigns to
+    for coll in ["[1, 2, 3]", "[1]", "<<<1 => 2, 3 => 4>>>", "'abc'", "<*a = 1*>"]:
+        for tgt in ["c[2]", "c[-1]", "c[0]", "c[1]", "c['a']", "c->a"]:
+            for rhs in ["delete_at(c, 0)", "do delete_at(c, 0); delete_at(c, 0) end", "remove(c, 1)", "append(c, 7)", "do c = NULL; 5 end", "do c = [9]; 5 end", "length(append(c, 1))"]:
+                for op in ["=", "+="]:
+                    cases.append(("assign-rhs-mutates", "def c = %s; %s %s %s; c" % (coll, tgt, op, rhs), False))
+                    cases.append(("assign-rhs-mutates", "def c = %s; do %s %s %s catch all 0 end; c" % (coll, tgt, op, rhs), False))
     for prog in ["def f() do return; end; f()", "def f() do return end; f()", "def f() return; f()", "def f() do 1; return; end; f()", "return", "return;",
                  "for x in [1] do return end", "def f() do if TRUE then return; 5 end; f()", "(fn() do return end)()", "def o = <*m = fn(self) do return; end*>; o->m()"]:
         cases.append(("bare-return", prog, False))
